@@ -37,11 +37,11 @@ theorem add_invalid_rejected (s : Pool) (d : Bytes) (h : validSize d.length = fa
 size, and the reported alignment is a multiple of the size -/
 theorem add_aligned (s : Pool) (hr : Reach s) (d : Bytes) (hv : validSize d.length = true) :
     ∃ off, (add s d).2 = .ok off ∧ d.length ∣ off ∧ off + d.length ≤ (add s d).1.size ∧
-      d.length ∣ (add s d).1.alignment ∧ s.size ≤ (add s d).1.size := by
+      d.length ∣ (add s d).1.alignment ∧ d.length ≤ (add s d).1.alignment ∧ s.size ≤ (add s d).1.size := by
   obtain ⟨hist, hinv⟩ := reachable_inv s hr
   obtain ⟨off, hres, hinv', hsz, _⟩ := add_inv s hist d hinv hv
   have := entry_ok _ _ hinv' ⟨d, off⟩ List.mem_cons_self
-  exact ⟨off, hres, this.1, this.2.1, this.2.2.1, hsz⟩
+  exact ⟨off, hres, this.1, this.2.1, this.2.2.1, this.2.2.2.2, hsz⟩
 
 /-- **Dedup + stability.** Once `add d` returned `off`, every later `add d` – after any further adds / fills / embeds,
 valid or invalid – returns the same `off` and leaves the pool unchanged. -/
@@ -138,6 +138,7 @@ example : accepts [.add [1#8, 2#8] (.ok 0) 2 2, .add [3#8] (.ok 1) 2 2] = false 
 example : accepts [.add [1#8] (.ok 0) 1 1, .add [1#8, 2#8] (.ok 2) 4 2, .fill [1#8, 7#8, 1#8, 2#8] 4 2] = false := by decide
 example : accepts [.add [1#8] (.ok 0) 1 1, .fill [] 1 1] = false := by decide
 example : accepts [.add [1#8, 2#8, 3#8] (.ok 0) 3 1] = false := by decide
+example : accepts [.add [1#8, 2#8] (.ok 0) 2 0] = false := by decide   -- alignment 0 covers nothing
 example : accepts [.add [1#8] (.ok 0) 1 1, .add [1#8, 2#8] (.ok 2) 4 2, .fill [1#8, 0#8, 1#8, 2#8] 4 2] = true := by decide
 
 end AsmjitVerif.ConstPool
